@@ -163,6 +163,10 @@ class System:
         if ev["op"] == "set_hparam":
             self.opt.param_groups[ev["group"]][ev["key"]] = ev["value"]
             return None
+        if ev["op"] == "poke":
+            with torch.no_grad():
+                spec._local(self.params[ev["param"]]).mul_(ev["scale"])
+            return None
         for i, (p, ps, g) in enumerate(zip(self.params, self.trace["params"], ev["g"])):
             p.grad = None if (g is None or i in self.frozen) else spec.make_grad(tuple(ps["shape"]), p.dtype, g[0], g[1], g[2])
         try:
@@ -201,6 +205,10 @@ class ShardSystem(System):
     def apply(self, ev: dict) -> BaseException | None:
         if ev["op"] == "set_hparam":
             self.opt.param_groups[ev["group"]][ev["key"]] = ev["value"]
+            return None
+        if ev["op"] == "poke":
+            with torch.no_grad():
+                spec._local(self.params[ev["param"]]).mul_(ev["scale"])
             return None
         self.prog.set_grads(ev)
         try:
